@@ -1,5 +1,3 @@
-extern crate alloc;
-
 use core::fmt;
 
 /// Error of parsing an enum value its string representation.
@@ -25,14 +23,3 @@ impl fmt::Display for FromStrError {
 
 #[cfg(feature = "std")]
 impl std::error::Error for FromStrError {}
-
-/// Lowercases the provided string.
-///
-/// For macro expansion internals only: [`str::to_lowercase()`] lives in `alloc`, which a `no_std`
-/// crate deriving `FromStr` doesn't necessarily link itself.
-#[doc(hidden)]
-#[must_use]
-#[inline]
-pub fn to_lowercase(s: &str) -> alloc::string::String {
-    s.to_lowercase()
-}
